@@ -25,6 +25,11 @@ INLINE_ATOMS = [
     "![", "](", ")", "`", "``", "<", ">", "&", "|", "~", "~~", "#", "!", "$", "%", "@", ":", "=", "{", "}", "^",
     "\t", "  ", "\xa0", " ", "\U0001f600", "\x00", "\r", "�", "\x0b", "\x1f",
 ]
+# characters on which Python's str predicates disagree with ASCII thinking (isdigit/isspace/lower/upper/strip)
+TRAPS = ["²", "³", "①", "٣", "५", "Ⅷ", "½", "\x0b", "\x0c", "\x1c", "\x1d", "\x1e", "\x1f", "\x85", "\xa0", "\u1680", "\u2000",
+         "\u2028", "\u2029", "\u202f", "\u205f", "\u3000", "\ufeff", "ǅ", "ß", "İ", "ı", "ſ", "K", "\u0301", "\u200b", "\u200d"]
+TRAP_LINES = ["². x", "1³) x", "①.", "٣. x", "a\n². x", "- ²", "\x1c# h", "\xa0- x", "\u2028> q", "#\xa0h", "```\x0bpy", "[İ]: /u",
+              "[i̇]", "[ß]: /u", "[SS]", "\x85", "1.\u2029x", "&#x85;", "\x0c---", "~~~\u3000x"]
 BLOCK_LINES = [
     "", " ", "  ", "\t", "# h", "## h ##", "####### x", "#", "#\t", "h\n===", "h\n---", "***", "---", "___", "* * *",
     " - - -", "    code", "\tcode", "     more", "```", "```py", "``` a\"b<c>", "~~~", "~~~~", "```\nx\n```", "~~~ x\n~~~",
@@ -55,10 +60,12 @@ def rand_inline(r, n=None) -> str:
 
 def rand_line(r) -> str:
     k = r.random()
-    if k < 0.4:
+    if k < 0.37:
         return r.choice(BLOCK_LINES)
+    if k < 0.42:
+        return r.choice(TRAP_LINES)
     if k < 0.6:
-        return rand_inline(r)
+        return rand_inline(r) if r.random() < 0.85 else rand_inline(r) + r.choice(TRAPS) + rand_inline(r, 1)
     pre = r.choice(["", "", "> ", "- ", "1. ", "  ", "    ", "# ", "> - ", "   ", "\t", "* ", ">", "|"])
     return pre + rand_inline(r)
 
@@ -80,7 +87,7 @@ def rand_doc(r, maxlines=8) -> str:
             s = s[: r.randrange(len(s) + 1)]
         elif op == 1:
             i = r.randrange(len(s) + 1)
-            s = s[:i] + r.choice(DAMAGE) + s[i:]
+            s = s[:i] + (r.choice(DAMAGE) if r.random() < 0.8 else r.choice(TRAPS)) + s[i:]
         elif op == 2:
             ls = s.split("\n")
             i = r.randrange(len(ls))
